@@ -234,7 +234,7 @@ func selftest(tier string) (killed, total int, notes []string) {
 		}
 		tuples(names, n, func(t []string) { cases["f"] = append(cases["f"], strings.Join(t, ",")) })
 	}
-	for _, m := range stMutants {
+	for mi, m := range stMutants {
 		faults := map[string]int{}
 		ncases := 0
 		switch m.family {
@@ -259,6 +259,8 @@ func selftest(tier string) (killed, total int, notes []string) {
 				ncases++
 				collectFaults(&r, faults)
 			})
+		default:
+			ncases = selftestFamily(&stMutants[mi], faults)
 		}
 		var fl []string
 		for k, v := range faults {
@@ -276,7 +278,11 @@ func selftest(tier string) (killed, total int, notes []string) {
 			continue
 		}
 		total++
-		if 0 < faults[m.want] {
+		hit := false
+		for _, w := range strings.Split(m.want, "|") {
+			hit = hit || 0 < faults[w]
+		}
+		if hit {
 			killed++
 			notes = append(notes, fmt.Sprintf("mutant %s (%s): distinguished, %s on %d cases", m.name, m.what, strings.Join(fl, ", "), ncases))
 		} else {
@@ -284,6 +290,9 @@ func selftest(tier string) (killed, total int, notes []string) {
 		}
 	}
 	tainted = false
+	if theHelper != nil {
+		theHelper.stop()
+	}
 	return
 }
 
@@ -295,6 +304,8 @@ func collectFaults(r *engine.Result, faults map[string]int) {
 			if j := strings.IndexByte(fc, ' '); 0 <= j {
 				fc = fc[:j]
 			}
+		} else if i := strings.Index(f.Sig, "kind="); 0 <= i {
+			fc = f.Sig[i+5:]
 		}
 		faults[fc]++
 	}
